@@ -26,6 +26,9 @@ def scenarios(ctx):
         dict(name="fragments-outage", n=4 if q else 30, nticks=1100 if q else 3000, heal_after=800 if q else 2400,
              policy=dict(p_send=0.12, p_loss=0.03, p_outage=0.004, retries=(-1, -1, 1, 0), lens=[1500, 2048, 2451, 2452, 3000, 5000, 7000, 50, 4]),
              world=dict(start_seq="alt")),
+        # fragmented retried messages while bursts wider than the message window go by (copies of fragments arrive after the window has moved on)
+        dict(name="fragments-under-bursts", n=3 if q else 16, nticks=800 if q else 2000, heal_after=550 if q else 1600,
+             policy=dict(p_send=0.1, p_loss=0.2, p_dup=0.1, maxdelay=10, retries=(-1, 1), lens=[1500, 2451, 3000, 3072, 5000], burst=0.03, burst_lens=(1, 1, 2), burst_retries=(0,)), world=dict(start_seq="alt")),
         # transfers of tens to hundreds of fragments over a fast clean link at normal pacing (several seconds on the wire each): nothing may give up half way
         dict(name="large-transfers", n=2 if q else 8, nticks=1300 if q else 3000, heal_after=1000 if q else 2600, quiesce=1200,
              policy=dict(p_send=0.0035, p_loss=0.0, p_dup=0.0, p_replay=0.0, maxdelay=1, retries=(-1, 0, 1), lens=[70000, 150000, 262000, 40]), world=dict(start_seq="alt")),
